@@ -151,6 +151,9 @@ def make_contribution(name, cfg):
             lee_mie_radius=a.get('radius', 0.01), lee_mie_q=a.get('q', 40),
             lee_mie_mix_ratio=a.get('mix', 1e-10),
             lee_mie_bottomP=a.get('bottomP', -1), lee_mie_topP=a.get('topP', -1))
+    if name == 'HydrogenIon':
+        from taurex.contributions.hm import HydrogenIon
+        return HydrogenIon()
     raise ValueError(name)
 
 
